@@ -428,6 +428,20 @@ class StmtMixin:
         it = self.eval(node.iter, frame)
         inv = self.loop_contract(node, frame)
         if inv is not None:
+            seq0 = self.as_seq(it) if not isinstance(it, (RangeV, EnumerateV)) else None
+            if seq0 is not None and seq0.peel is not None:
+                # concrete-shape prefix ++ symbolic tail: run the prefix iterations concretely, the invariant
+                # (whose index `i` then counts tail elements) governs the tail
+                prefix, tail = seq0.peel
+                for x in prefix:
+                    self.assign_target(node.target, seqops._as_elem(seq0, x), frame)
+                    try:
+                        self.exec_block(node.body, frame)
+                    except _Break:
+                        return
+                    except _Continue:
+                        continue
+                it = tail
             return self.loop_with_invariant(node, frame, inv, it)
         items = self.try_iter_concrete(it)
         if items is not None:
